@@ -181,6 +181,36 @@ pub fn run(thorough: bool, mut rng: Rng, mut out: Out) {
             judge(&mut out, &label, &o, 1 + queued, true);
         }
     }
+    // corpus (F27): a frame that is not an LDAPResult under the ID of a single-result operation — an RFC-legal
+    // IntermediateResponse (25) to an extended operation, a SearchResultEntry (4) under the wrong ID, a result
+    // whose body is malformed — must fail that operation with an error (not panic its caller's task), leave the
+    // connection serving the others, and a result frame that follows under the same ID is nobody's
+    for (n, bad_op) in [25u64, 4, 19, 11, 24].iter().enumerate() {
+        let sc = vec![
+            Step::Issue { kind: OpKind::Single, tmo_ms: None },
+            Step::Issue { kind: OpKind::Single, tmo_ms: if n % 2 == 0 { None } else { Some(5000) } },
+            Step::Settle,
+            Step::Send { id: 1, op: *bad_op, good: false },
+            Step::Settle,
+            Step::Send { id: 1, op: 11, good: true },
+            Step::Send { id: 2, op: 11, good: true },
+            Step::Settle,
+            Step::Issue { kind: OpKind::Single, tmo_ms: None },
+            Step::Settle,
+            Step::Send { id: 3, op: 11, good: true },
+            Step::Settle,
+        ];
+        let o = run_script(&sc);
+        let label = format!("corpus F27 non-result frame (op {}) under a single operation's ID", bad_op);
+        out.case(&label, true);
+        out.stat("fault.NonResultFrameForSingleOp");
+        judge(&mut out, &label, &o, 3, false);
+        let dones: Vec<&String> = o.trace.iter().filter(|t| t.starts_with("cli done ")).collect();
+        let first = dones.iter().find(|t| t.starts_with("cli done 0 ")).map(|t| t.as_str()).unwrap_or("cli done 0 <never>");
+        out.r(&format!("faults.non-result-frame-is-an-error-not-a-panic {}", label), first == "cli done 0 decode", first);
+        let others_ok = dones.iter().filter(|t| t.starts_with("cli done 1 frame:") || t.starts_with("cli done 2 frame:")).count() == 2;
+        out.r(&format!("faults.connection-serves-the-others {}", label), others_ok, &format!("{:?}", dones));
+    }
     let nbase = if thorough { 240 } else { 20 };
     for bi in 0..nbase {
         let b = gen_base(&mut rng);
